@@ -18,8 +18,8 @@
 (***************************************************************************)
 EXTENDS Server, Json, IOUtils
 Trace == ndJsonDeserialize(IOEnv.TRACE_FILE)
-VARIABLES l, base, lastObs, nsent
-tvars == <<vars, l, base, lastObs, nsent>>
+VARIABLES l, base, lastObs, nsent, sb
+tvars == <<vars, l, base, lastObs, nsent, sb>>
 
 DefaultKind == CHOOSE k \in ReqKinds : TRUE
 ObsTotal(lst_, lab) == LET m == {i \in 1..Len(lst_) : lst_[i].method = lab[1] /\ lst_[i].code = lab[2]}
@@ -35,26 +35,26 @@ TraceInit ==
   /\ pcC = [c \in Clients |-> "idle"] /\ resp = [c \in Clients |-> NoResp] /\ proofOf = [c \in Clients |-> "none"]
   /\ shared = "none" /\ aborted = {}
   /\ inflight = 0 /\ total = ZeroBag /\ sentBag = ZeroBag
-  /\ l = 1 /\ base = <<>> /\ lastObs = ZeroBag /\ nsent = 0 /\ TLCSet(1, 1)
+  /\ l = 1 /\ base = <<>> /\ lastObs = ZeroBag /\ nsent = 0 /\ sb = {} /\ TLCSet(1, 1)
 
 Ev == Trace[l]
 IsEv(name) == l <= Len(Trace) /\ Ev.event = name
 Consume == l' = l + 1
 
 Silent == /\ \E c \in Clients : CInc(c) \/ CCount(c) \/ CDec(c) \/ CClose2(c)
-          /\ UNCHANGED <<l, base, lastObs, nsent>>
+          /\ UNCHANGED <<l, base, lastObs, nsent, sb>>
 
 TReset == /\ IsEv("reset") /\ Consume
           /\ \A c \in Clients : pcC[c] \in {"idle", "done", "refused"}           \* the previous round is over
           /\ req' = [c \in Clients |-> IF c \in DOMAIN Ev.reqs THEN Ev.reqs[c] ELSE DefaultKind]
           /\ \A c \in DOMAIN Ev.reqs : Ev.reqs[c] \in ReqKinds
           /\ pcC' = [c \in Clients |-> "idle"] /\ resp' = [c \in Clients |-> NoResp] /\ proofOf' = [c \in Clients |-> "none"]
-          /\ inflight' = 0 /\ total' = ZeroBag /\ sentBag' = ZeroBag /\ lastObs' = ZeroBag /\ nsent' = 0
+          /\ inflight' = 0 /\ total' = ZeroBag /\ sentBag' = ZeroBag /\ lastObs' = ZeroBag /\ nsent' = 0 /\ sb' = {}
           /\ base' = Ev.base
           /\ UNCHANGED <<vMain, vJob, vHttp, shared, aborted>>
-TSend == /\ IsEv("send") /\ Consume /\ CConnect(Ev.c) /\ nsent' = nsent + 1 /\ UNCHANGED <<base, lastObs>>
+TSend == /\ IsEv("send") /\ Consume /\ CConnect(Ev.c) /\ nsent' = nsent + 1 /\ UNCHANGED <<base, lastObs, sb>>
 HookNames == {"prove.enter", "prove.read", "prove.decoded", "prove.proved", "prove.respond"}
-THook == /\ l <= Len(Trace) /\ Ev.event \in HookNames /\ Consume /\ UNCHANGED <<base, lastObs, nsent>>
+THook == /\ l <= Len(Trace) /\ Ev.event \in HookNames /\ Consume /\ UNCHANGED <<base, lastObs, nsent, sb>>
          /\ Ev.c \in Clients
          /\ \/ Ev.event = "prove.enter" /\ HEnter(Ev.c)
             \/ Ev.event = "prove.read" /\ HRead(Ev.c)
@@ -63,11 +63,11 @@ THook == /\ l <= Len(Trace) /\ Ev.event \in HookNames /\ Consume /\ UNCHANGED <<
             \/ Ev.event = "prove.respond" /\ HRespond(Ev.c) /\ ToString(resp'[Ev.c].status) = Ev.arg
 \* a decode failure has no hook of its own: it is taken silently when the next event of that client is its response
 TDecodeFail == /\ l <= Len(Trace) /\ Ev.event = "prove.respond" /\ Ev.c \in Clients
-               /\ HDecode(Ev.c) /\ pcC'[Ev.c] = "respond" /\ UNCHANGED <<l, base, lastObs, nsent>>
+               /\ HDecode(Ev.c) /\ pcC'[Ev.c] = "respond" /\ UNCHANGED <<l, base, lastObs, nsent, sb>>
 \* warm-up traffic before the first round is not part of any round
 TWarmup == /\ l <= Len(Trace) /\ Ev.event \in {"prove.enter", "prove.respond", "prove.read"} /\ Ev.c = "warmup"
-           /\ Consume /\ UNCHANGED <<vars, base, lastObs, nsent>>
-TRecv == /\ IsEv("recv") /\ Consume /\ UNCHANGED <<vars, base, lastObs, nsent>>
+           /\ Consume /\ UNCHANGED <<vars, base, lastObs, nsent, sb>>
+TRecv == /\ IsEv("recv") /\ Consume /\ UNCHANGED <<vars, base, lastObs, nsent, sb>>
          /\ Ev.err = ""
          /\ resp[Ev.c] # NoResp                                                    \* only after the handler wrote it
          /\ Ev.status = resp[Ev.c].status
@@ -75,17 +75,20 @@ TRecv == /\ IsEv("recv") /\ Consume /\ UNCHANGED <<vars, base, lastObs, nsent>>
          /\ (Ev.status = 200 => Ev.proofok)
          /\ Ev.detail = ""
 InHandler(c) == pcC[c] \in {"entered", "readbody", "decoded", "respond"}
-TScrape == /\ IsEv("scrape") /\ Consume /\ UNCHANGED <<vars, base, nsent>>
+\* A scrape is not atomic with the trace: the registry is read at some moment between the "scrape-begin" line and the "scrape" line.
+\* Only a request that is inside the handler at BOTH lines was certainly inside when the gauge was read.
+TScrapeBegin == /\ IsEv("scrape-begin") /\ Consume /\ sb' = {c \in Clients : InHandler(c)} /\ UNCHANGED <<vars, base, lastObs, nsent>>
+TScrape == /\ IsEv("scrape") /\ Consume /\ UNCHANGED <<vars, base, nsent, sb>>
            /\ \A i \in 1..Len(Ev.total) : KnownLabel(Ev.total[i]) \/ Ev.total[i].n = ObsTotal(base, <<Ev.total[i].method, Ev.total[i].code>>)
            /\ LET obs == [lab \in Labels |-> ObsTotal(Ev.total, lab) - ObsTotal(base, lab)] IN
                 /\ lastObs' = obs
                 /\ IF Ev.final
                      THEN /\ Ev.ok /\ Ev.inflight = 0 /\ obs = sentBag /\ ClientsQuiet
                      ELSE /\ \A lab \in Labels : lastObs[lab] <= obs[lab] /\ obs[lab] <= sentBag[lab]
-                          /\ Cardinality({c \in Clients : InHandler(c)}) <= Ev.inflight /\ Ev.inflight <= nsent
+                          /\ Cardinality({c \in sb : InHandler(c)}) <= Ev.inflight /\ Ev.inflight <= nsent
 TScrapeFailed == IsEv("scrape-failed") /\ FALSE      \* the metrics endpoint must stay available
 
-TraceNext == IF ENABLED Silent THEN Silent ELSE (TReset \/ TSend \/ THook \/ TDecodeFail \/ TWarmup \/ TRecv \/ TScrape \/ TScrapeFailed)
+TraceNext == IF ENABLED Silent THEN Silent ELSE (TReset \/ TSend \/ THook \/ TDecodeFail \/ TWarmup \/ TRecv \/ TScrapeBegin \/ TScrape \/ TScrapeFailed)
 TraceSpec == TraceInit /\ [][TraceNext]_tvars
 HighWater == TLCSet(1, IF l > TLCGet(1) THEN l ELSE TLCGet(1))
 TraceAccepted == PrintT(<<"HWM", TLCGet(1), Len(Trace)>>) /\ TLCGet(1) = Len(Trace) + 1
